@@ -30,6 +30,10 @@ def validateEntry (now : Nat) (ns : Bytes) (e : Entry) : Option Failure :=
   else if e.ts > now + maxFutureShift then some .tooFarInTheFuture
   else none
 
+/-- the guard at the top of `Replica::insert`: a local write with a zero length *or* the empty hash
+is refused (`InsertError::EntryIsEmpty`) before anything else happens -/
+def insertGuard (e : Entry) : Bool := e.len == 0 || e.hash == Entry.emptyHash
+
 inductive InsertResult where
   | ok (removed : Nat)
   | newerEntryExists
